@@ -9,7 +9,9 @@ import (
 	"os"
 	"path/filepath"
 	"sort"
+	"strconv"
 	"strings"
+	"sync"
 	"time"
 
 	"golang.org/x/sync/semaphore"
@@ -23,6 +25,7 @@ import (
 	"verif/harness/lib/miniredis"
 	"verif/harness/lib/prng"
 	"verif/harness/lib/rdbgen"
+	"verif/harness/lib/refcrc"
 	"verif/harness/lib/reffilter"
 	"verif/harness/lib/refrdb"
 	"verif/harness/lib/wk"
@@ -54,6 +57,25 @@ type c07case struct {
 
 const c07sentinel = "S3NT-tgt-c07"
 
+var slotTags = map[int]string{}
+var slotTagsMu sync.Mutex
+
+// slotTag returns a short hash tag whose Cluster slot (by the reference function) is the given one.
+func slotTag(slot int) string {
+	slotTagsMu.Lock()
+	defer slotTagsMu.Unlock()
+	if t, ok := slotTags[slot]; ok {
+		return t
+	}
+	for n := 0; ; n++ {
+		t := "t" + strconv.Itoa(n)
+		if refcrc.Slot([]byte(t)) == slot {
+			slotTags[slot] = t
+			return t
+		}
+	}
+}
+
 func genC07file(rng *prng.R, c *c07case, tag string) ([]byte, []rdbgen.Record) {
 	f := &rdbgen.File{Version: 9}
 	ndb := len(c.DBs)
@@ -75,6 +97,10 @@ func genC07file(rng *prng.R, c *c07case, tag string) ([]byte, []rdbgen.Record) {
 			prefix = "skip:"
 		}
 		ks := &rdbgen.KeySpec{DB: uint32(db), Key: []byte(fmt.Sprintf("%s%s%d:%s", prefix, tag, i, rng.Alpha(3, "abcxyz"))), Val: v, Enc: encs[rng.Intn(len(encs))]}
+		if c.Filter == "slots" {
+			// keys aimed at the first, the last and some middle slots (and their neighbours) through a hash tag
+			ks.Key = []byte(fmt.Sprintf("{%s}%s%d", slotTag(rng.Pick(0, 16383, 8000, 1, 16382, 7999)), tag, i))
+		}
 		if rng.Chance(1, 5) {
 			ks.ExpireMs = uint64(time.Now().UnixNano()/1e6) + 86400000*30
 		}
@@ -125,6 +151,9 @@ func runC07(r resIface, c *c07case, rng *prng.R, scratch string) {
 	case "dbwhite":
 		conf.Options.FilterDBWhitelist = []string{fmt.Sprint(c.DBs[len(c.DBs)-1])}
 		ref.DBWhite = []string{fmt.Sprint(c.DBs[len(c.DBs)-1])}
+	case "slots": // the slot list is applied by the full phase of sync only
+		conf.Options.FilterSlot = []string{"0", "16383", "8000"}
+		ref.Slots = []string{"0", "16383", "8000"}
 	}
 	// expected keyspace
 	type exp struct {
@@ -139,7 +168,7 @@ func runC07(r resIface, c *c07case, rng *prng.R, scratch string) {
 			scripts++ // only filter.lua (off here) may exclude a script
 			continue
 		}
-		if ref.DBExcluded(int(x.DB)) || ref.KeyExcluded(x.Key) {
+		if ref.DBExcluded(int(x.DB)) || ref.KeyExcluded(x.Key) || (c.Filter == "slots" && ref.SlotExcluded(x.Key)) {
 			continue
 		}
 		db := int(x.DB)
@@ -387,9 +416,12 @@ func c07runsChild(raw json.RawMessage, scratch string) {
 	for i := a.Start; i < a.End; i++ {
 		rng := base.At(uint64(i))
 		c := &c07case{Index: i, Mode: "sync", Keys: rng.Pick(50, 120, 400), Parallel: rng.Pick(1, 2, 3, 8, 32), TargetDB: rng.Pick(-1, -1, 2),
-			Policy: rng.PickS("random", "roundrobin", "starve", "newest", "oldest"), Filter: rng.PickS("", "", "keyblack", "keywhite", "dbblack", "dbwhite"), Scripts: rng.Pick(0, 1, 3)}
+			Policy: rng.PickS("random", "roundrobin", "starve", "newest", "oldest"), Filter: rng.PickS("", "", "keyblack", "keywhite", "dbblack", "dbwhite", "slots"), Scripts: rng.Pick(0, 1, 3)}
 		if i%4 == 3 {
 			c.Mode = "restore"
+			if c.Filter == "slots" {
+				c.Filter = "" // restore mode has no slot filter
+			}
 		}
 		ndb := rng.Range(1, 6)
 		all := []int{0, 1, 2, 3, 5, 15}
